@@ -116,6 +116,47 @@ func runConcChecks(c *explore.Ctx, id string, drivers []concParams, bound int, p
 			}
 			completed = b
 		}
+		// weighted search: fewer preemptions, more reorderings of who runs when the current
+		// goroutine blocks (budget units: preemption 2, choice at a blocking point 1)
+		wb := d.WQ
+		if c.Tier == "thorough" {
+			wb = d.WT
+		}
+		wdone := -1
+		var wlast *explore.DFSStats
+		if wb > 0 && last != nil && completed == bound {
+			explore.UseWeighted = true
+			for b := 2 * bound; b <= wb && !c.OutOfTime(); b++ {
+				st := explore.RunDFS(c, pool, "conc", d, b, perTask)
+				wlast = st
+				if st.Nondet != "" {
+					fmt.Printf("NONDETERMINISM in %s (weighted): %s\n", d.Name, st.Nondet)
+					c.Coverage["nondeterminism"] = st.Nondet
+					break
+				}
+				unknown := 0
+				for _, v := range st.Viols {
+					if !reportConc(c, id, d, v) {
+						unknown++
+					}
+				}
+				if unknown > 0 || st.Capped {
+					break
+				}
+				wdone = b
+			}
+			explore.UseWeighted = false
+			if wdone < wb {
+				exh = false
+			}
+			if wlast != nil {
+				c.Add("evaluations", wlast.Execs)
+				for h := range wlast.Hists {
+					last.Hists[h] = true
+				}
+				fmt.Printf("  %-24s weighted budget %d/%d execs=%d pruned=%d hists=%d\n", d.Name, wdone, wb, wlast.Execs, wlast.Pruned, len(wlast.Hists))
+			}
+		}
 		if last == nil {
 			exh = false
 			continue
@@ -132,7 +173,7 @@ func runConcChecks(c *explore.Ctx, id string, drivers []concParams, bound int, p
 		}
 		per[d.Name] = map[string]any{"cfg": d.Cfg, "clients": d.Clients, "pre": d.Pre, "bound_completed": completed, "bound_target": bound, "executions_at_last_bound": last.Execs,
 			"distinct_histories": len(last.Hists), "distinct_outcomes": len(last.Outcomes), "max_choice_points": last.MaxPoints, "avg_choice_points": avg, "subtrees": last.Subtrees,
-			"pruned_at_visited_state": last.Pruned, "distinct_hb_traces": len(last.HBTraces)}
+			"pruned_at_visited_state": last.Pruned, "distinct_hb_traces": len(last.HBTraces), "weighted_budget_target": wb, "weighted_budget_completed": wdone}
 		fmt.Printf("  %-24s bound %d/%d execs=%d pruned=%d traces=%d hists=%d outcomes=%d maxpoints=%d\n", d.Name, completed, bound, last.Execs, last.Pruned, len(last.HBTraces), len(last.Hists), len(last.Outcomes), last.MaxPoints)
 		if len(c.Coverage) < 1000 {
 			c.Sample(map[string]any{"driver": d.Name, "clients": d.Clients, "outcomes": keysOf(last.Outcomes, 4)})
